@@ -70,6 +70,9 @@ pub struct TimelineScn {
     pub decoys: bool,
     pub fmt: Fmt,
     pub events: Vec<TEvent>,
+    /// the issuer restricts the credential to the verifier's audience (top-level `aud`)
+    #[serde(default)]
+    pub issuer_aud: bool,
 }
 
 const Y: i64 = 365 * 86400;
@@ -109,7 +112,13 @@ pub fn gen_c09(rng: &mut Rng, tier: Tier) -> Result<Value, serde_json::Error> {
         1 => ExpSpec::Null,
         2 => ExpSpec::Str(rng.pick(&["tomorrow", "1883000000", "", "NaN"]).to_string()),
         3 => ExpSpec::Neg(-(1 + rng.below(1 << 40) as i64)),
-        4 => ExpSpec::Abs(4_102_444_800 + rng.range(-Y, 0)), // up to 2100-01-01
+        4 => {
+            if rng.bool() {
+                ExpSpec::Abs(4_102_444_800 + rng.range(-Y, 0)) // up to 2100-01-01
+            } else {
+                ExpSpec::Abs(rng.range(0, 130)) // the first seconds of the epoch
+            }
+        }
         5 => ExpSpec::Rel(-offset(rng)),
         6 | 7 => ExpSpec::RelFrac(if rng.bool() { total / 2 + offset(rng) } else { -offset(rng) }),
         8..=12 => ExpSpec::Rel(rng.range(0, total.max(1)) + if rng.bool() { 0 } else { offset(rng) % 7200 }), // expires during the timeline
@@ -165,6 +174,7 @@ pub fn gen_c09(rng: &mut Rng, tier: Tier) -> Result<Value, serde_json::Error> {
         decoys: rng.bool(),
         fmt: rand_fmt(rng),
         events,
+        issuer_aud: rng.chance(1, 10),
     };
     serde_json::to_value(s)
 }
@@ -239,6 +249,9 @@ pub fn execute(scn_v: &Value) -> RunReport {
             Some(ti + d)
         }
     };
+    if scn.issuer_aud {
+        claims.insert("aud".into(), json!("https://verifier.example"));
+    }
     let claims = Value::Object(claims);
     let ih = World::new_issuer(&scn.issuer.key, scn.issuer.alg.clone());
     let issued = w.issue(n_i, &ih, &scn.issuer.key, &claims, &scn.strat, scn.holder_key.as_deref(), scn.decoys, scn.fmt);
@@ -351,7 +364,15 @@ pub fn execute(scn_v: &Value) -> RunReport {
                     Some(_) => "nbf_band",
                 };
                 let mut viol: Option<(String, String, Value)> = None;
-                if exp_state == "exp_missing" || exp_state == "expired" || nbf_state == "nbf_future" {
+                // an arithmetic overflow inside the window check: this build traps it, a build
+                // without overflow checks wraps around and goes on with a nonsense comparison
+                if let Out::Panic(p) = vo.res() {
+                    if p.msg.contains("with overflow") {
+                        viol = Some(("window-check-is-well-defined".into(), "c09:arithmetic_overflow_in_window_check".into(), json!({"panic": format!("{}:{}: {}", p.file, p.line, p.msg), "exp": claims.get("exp"), "nbf": nbf_num, "verifier_local_time": tv})));
+                    }
+                }
+                if viol.is_some() {
+                } else if exp_state == "exp_missing" || exp_state == "expired" || nbf_state == "nbf_future" {
                     rep.count("oracle.c09.must_reject");
                     if accepted {
                         let why = if exp_state != "exp_ok" && exp_state != "exp_band" { exp_state } else { nbf_state };
